@@ -26,8 +26,9 @@ class C20(P.Property):
     mode = "plain"
     tiers = {"quick": dict(runs=120000, budget_s=50), "thorough": dict(runs=3000000, budget_s=780)}
     technique = "seeded operation histories with sync/close/reopen against a dict reference model (deterministic simulation, history-only)"
-    level_text = ("seeded exploration of operation histories (refused values, sync, close, reopen, context-manager exit, use after "
-                  "close, create-over-existing, open-missing) against a dict reference model, every key checked after every step")
+    level_text = ("seeded exploration of operation histories (refused values, large values, odd keys, sync, close, reopen, context-manager "
+                  "exit, use after close, create-over-existing, open-missing, a second dictionary alive in the same process) against a dict "
+                  "reference model, every key checked after every step")
     level_note = ("trusted: the dict model and interpreter in sim/ssesim/props/c20.py; DBMDict only within one open session "
                   "(dbm.dumb backend on this image never creates the bare path, as the property scopes)")
     rule = ("seeded histories (class, create | from_dict+mutation of the source, 1..50 operations over 6 keys) interpreted on the real "
